@@ -106,6 +106,7 @@ def main():
             assert rc == 0, out
             e = dict(os.environ)
             e["VERIF_REPO"] = wt2
+            e["VERIF_EVIDENCE_DIR"] = "/tmp/seed-evidence"
             for prop in props:
                 t0 = time.time()
                 r = subprocess.run("./check %s --tier %s" % (prop, a.tier), shell=True, cwd=VERIF, env=e, stdout=subprocess.PIPE, stderr=subprocess.STDOUT, text=True, timeout=7200)
